@@ -8,7 +8,7 @@
     pp_text         literal texts: replay target for findings of tools/fuzz_c03.py (plus short random texts)
 (b) noop / noop_corpus
                     read_model_from_string(T).code == T and .update_source().code == T
-(c) frame / frame_corpus
+(c) frame / frame_corpus / table_layout (one $TABLE in every two-/three-line layout x every removable column)
                     model x one edit through pharmpy.modeling: records whose kind the edit cannot affect are byte
                     identical and in order (own splitter pv.ref.nmsplit); in an edited code record standalone comments,
                     verbatim lines and statements whose code is unchanged keep their text; in an edited parameter
@@ -1233,6 +1233,68 @@ def run_frame(spec):
     return _run_frame(spec)
 
 
+# --- exhaustive small family: one output table in every two-line (thorough: three-line) layout x every removable column
+
+TL_HEAD = (
+    '$PROBLEM table layouts\n$INPUT ID TIME AMT DV\n$DATA data.csv IGNORE=@\n$SUBROUTINES ADVAN1 TRANS2\n$PK\nCL = THETA(1)*EXP(ETA(1))\nV = THETA(2)\nS1 = V\n'
+    '$ERROR\nIPRED = F\nY = F + F*EPS(1)\n$THETA (0, 1) ; TVCL\n$THETA (0, 2)\n$OMEGA 0.1\n$SIGMA 0.1\n$ESTIMATION METHOD=1 INTER\n'
+)
+TL_ITEMS = ['ID', 'TIME', 'DV', 'PRED', 'IPRED', 'CWRES', 'RES', 'WRES', 'NOAPPEND', 'NOPRINT', 'ONEHEADER', 'FILE=sdtab1']
+TL_TARGETS = [('rm', 'PRED'), ('rm', 'IPRED'), ('rm', 'CWRES'), ('rm', 'RES'), ('rm', 'WRES'), ('add', 'CIPREDI')]
+TL_INDENT = ['', '  ', '\t']
+TL_COMMENT = ['', ' ; the key columns', ';c']
+
+
+def table_layout_text(spec):
+    def gi(k, n):
+        v = spec.get(k, 0)
+        return v % n if isinstance(v, int) and not isinstance(v, bool) else 0
+
+    n = len(TL_ITEMS)
+    cuts = sorted({1 + gi('cut', n - 1), 1 + gi('cut2', n - 1)}) if spec.get('cut2') is not None else [1 + gi('cut', n - 1)]
+    ind = TL_INDENT[gi('ind', 3)]
+    com = gi('com', 9)
+    lines = []
+    prev = 0
+    for j, c in enumerate(cuts + [n]):
+        ln = ('$TABLE ' if j == 0 else ind) + ' '.join(TL_ITEMS[prev:c])
+        ln += TL_COMMENT[(com // 3 if j else com) % 3] if j < 2 else ''
+        lines.append(ln)
+        prev = c
+    return TL_HEAD + '\n'.join(lines) + '\n', TL_TARGETS[gi('target', len(TL_TARGETS))]
+
+
+def enum_table_layout(tier):
+    n = len(TL_ITEMS)
+    for cut in range(n - 1):
+        for ind in range(3):
+            for com in ((0, 1) if tier == 'quick' else (0, 1, 5)):
+                for t in range(len(TL_TARGETS)):
+                    yield dict(cut=cut, cut2=None, ind=ind, com=com, target=t)
+                    if tier != 'quick':
+                        for cut2 in range(cut + 1, n - 1):
+                            yield dict(cut=cut, cut2=cut2, ind=ind, com=com, target=t)
+
+
+def run_table_layout(spec):
+    text, (what, target) = table_layout_text(spec)
+    model = read_model(text)
+    if model.code != text:
+        raise Violation('table-layout:code-after-read', observed=model.code, expected=text)
+    step = model.execution_steps[-1]
+    if what == 'rm':
+        is_res = target in step.residuals
+        have = list(step.residuals if is_res else step.predictions)
+        if target not in have:
+            raise HarnessError(f'{target} not among the columns pharmpy reads from {text}')
+        edit = [16 if is_res else 17, have.index(target), 0]
+    else:
+        edit = [19, 1, 0]
+    changed, classes, after = check_frame(text, model, edit)
+    cuts = 1 if spec.get('cut2') is None else 2
+    return CaseInfo(nontrivial=changed, classes=tuple(classes) + (f'lines:{cuts + 1}', 'indent' if spec.get('ind', 0) % 3 else 'no-indent'), render=dict(before=text[len(TL_HEAD):], after=after[len(TL_HEAD):] if after.startswith(TL_HEAD) else after))
+
+
 FRAME_CORPUS_SPEC = st.fixed_dictionaries(dict(file=st.integers(0, 999), ops=st.lists(N.OP, min_size=0, max_size=3), edit=EDIT))
 
 
@@ -1334,13 +1396,14 @@ def selfcheck():
 
 
 SUBCHECKS = [
-    SubCheck('pp_stream', lambda: STREAM_SPEC, run_pp_stream, quick=1200, thorough=13760),
-    SubCheck('pp_grammar', grammar_strategy, run_pp_grammar, quick=3200, thorough=36710),
+    SubCheck('pp_stream', lambda: STREAM_SPEC, run_pp_stream, quick=800, thorough=13760),
+    SubCheck('pp_grammar', grammar_strategy, run_pp_grammar, quick=2800, thorough=36710),
     SubCheck('pp_layout', lambda: LAYOUT_SPEC, run_pp_layout, quick=1000, thorough=11470),
     SubCheck('pp_corpus', lambda: CORPUS_SPEC, run_pp_corpus, quick=800, thorough=9180, enumerate=enum_corpus),
     SubCheck('pp_text', lambda: st.fixed_dictionaries(dict(text=st.text(alphabet=st.sampled_from(sorted(set(ALPHABET))), max_size=60))), run_pp_text, quick=400, thorough=4590),
     SubCheck('noop', lambda: STREAM_SPEC, run_noop, quick=320, thorough=3670, quick_time=240, thorough_time=3000),
     SubCheck('noop_corpus', lambda: NOOP_CORPUS_SPEC, run_noop_corpus, quick=64, thorough=730, enumerate=enum_corpus, quick_time=240, thorough_time=3000),
-    SubCheck('frame', lambda: FRAME_SPEC, run_frame, quick=560, thorough=6420, quick_time=240, thorough_time=3000),
+    SubCheck('frame', lambda: FRAME_SPEC, run_frame, quick=520, thorough=6420, quick_time=240, thorough_time=3000),
+    SubCheck('table_layout', None, run_table_layout, quick=0, thorough=0, enumerate=enum_table_layout, quick_time=240, thorough_time=3000),
     SubCheck('frame_corpus', lambda: FRAME_CORPUS_SPEC, run_frame_corpus, quick=128, thorough=1470, quick_time=240, thorough_time=3000),
 ]
